@@ -151,7 +151,7 @@ impl fmt::Display for Incomplete {
                 }
                 (Incomplete::Sum(..), _) => f.write_str(" + ")?,
                 (Incomplete::Product(..), _) => f.write_str(" × ")?,
-                (Incomplete::Final(ref fnl), _) => fnl.fmt(f)?,
+                (Incomplete::Final(ref fnl), _) => super::final_data::Truncated(fnl).fmt(f)?,
             }
         }
         Ok(())
